@@ -168,6 +168,20 @@ CLAIMED["C03"] = dict(
          "values are enumerated natively (finite class). Open known finding: an invalid DWA parks the node in Closing without "
          "a DPR. Outside: multi-field corruption beyond the raw-buffer bound; states other than Open (C06).")
 
+CLAIMED["C04"] = dict(
+    level="model_checking", technique=E1 + " (segmentation) + " + E3 + " (interleavings)", design="6/C04",
+    text="(i) The reference encoding of 1-3 messages is cut at solver-chosen positions (any byte offsets, also inside headers and "
+         "length fields) and handed to the REAL reader/receive-worker/state-machine/consumer code on a stand-in socket; CrossHair "
+         "shows for every cut that get_message() yields exactly the application messages, complete and in order, and that base "
+         "requests are answered in order. (ii) TcpConnection._run/read, recv_message_from_queue, the state-machine loop and "
+         "get_message are re-compiled from source as coroutines on stand-in Lock/Event/Queue/selector objects; a network thread "
+         "delivers later segments at arbitrary moments; every scheduling decision is a boolean solver variable and CrossHair "
+         "enumerates all schedules within the preemption bound (statement-level preemption inside read() and the receive worker).",
+    note="Trusted: CrossHair, z3, stand-in primitives and scheduler (vf/cosched.py, vf/conode.py), reference encoder. Bounds: "
+         "<= 3 messages, <= 3 cuts, <= 1 (quick) / 2 (thorough) preemptions, K <= 64 decisions. Outside: bytecode-level "
+         "preemption, real kernel sockets, SCTP, freely scheduled idle ticks. Two genuine defects found and fixed (no "
+         "reassembly; unsynchronised take of the receive stream).")
+
 CLAIMED["C06"] = dict(
     level="model_checking", technique=E1 + " (one-step inductive check against a reference transition function)", design="6/C06",
     text="For each (role, state) one tick of the real PeerStateMachine loop body is executed on a stand-in transport from a "
